@@ -506,7 +506,22 @@ func (g *mgen) step() {
 		g.do(MOp{Op: "MEquals", MA: rcv, MB: b, X: []int64{1, 1, 2, 3, 5, 20, 40}[g.r.Intn(7)]})
 	case 10:
 		r, a, b := pickRef(g.r, g.nm), pickRef(g.r, g.nk), pickRef(g.r, g.km)
-		if r == a || r == b {
+		// receiver among the operands (square shapes only): r = a, r = b, r = a = b.  A sparse
+		// receiver must panic; a dense one computes the product for r = a or r = b and takes the
+		// wrong (column-buffered) schedule for r = a = b (known finding F-MDOTM-RR).
+		if g.n == g.k && g.k == g.m && g.r.Intn(2) == 0 {
+			switch g.r.Intn(3) {
+			case 0:
+				a = r
+				g.count("MdotM:r=a")
+			case 1:
+				b = r
+				g.count("MdotM:r=b")
+			default:
+				a, b = r, r
+				g.count("MdotM:r=a=b")
+			}
+		} else if r == a || r == b {
 			return
 		}
 		if maxAbs(g.mvals(a))*maxAbs(g.mvals(b))*int64(g.k)+maxAbs(g.mvals(r)) > cp {
@@ -587,6 +602,9 @@ func genMCase(r *Rng, tn string, cw *CaseWriter) (MCase, bool) {
 		return r.Range(1, 4)
 	}
 	g.n, g.m, g.k = dim(), dim(), dim()
+	if r.Intn(5) == 0 { // square shapes: the only ones where MdotM can have its receiver among the operands
+		g.m, g.k = g.n, g.n
+	}
 	g.count(fmt.Sprintf("shape:%dx%dx%d", g.n, g.k, g.m))
 	for i := 0; i < 4; i++ {
 		g.nm = append(g.nm, g.newM(g.n, g.m, i%2 == 0))
